@@ -425,6 +425,39 @@ func execManifest(ops []string, st *Stats) ([]string, []string) {
 					fail(i, "[replay-exact] after addChanges: "+msg)
 				}
 				return "ok " + d.String()
+			case w[0] == "appendraw" && len(w) == 2:
+				cs, ok := parseChangesGo(w[1])
+				if !ok {
+					return "bad-op"
+				}
+				payload, err := proto.Marshal(&pb.ManifestChangeSet{Changes: cs})
+				if err != nil {
+					return "err:marshal"
+				}
+				b := s.fileBytes()
+				var lc [8]byte
+				binary.BigEndian.PutUint32(lc[0:4], uint32(len(payload)))
+				binary.BigEndian.PutUint32(lc[4:8], crc32.Checksum(payload, castagnoli))
+				img := append(append(append([]byte{}, b...), lc[:]...), payload...)
+				r := s.replayBytes(img, s.ext)
+				// oracle (all-or-nothing): apply the set to a copy of the replayed manifest
+				if base := s.replayBytes(b, s.ext); base.err == "ok" && !s.diverged {
+					fp, _ := os.Open(filepath.Join(s.dir, "REPLAY-IMAGE"))
+					m, _, _ := badger.VerifReplayManifestFile(fp, s.ext)
+					fp.Close()
+					aerr := badger.VerifApplyChangeSet(&m, &pb.ManifestChangeSet{Changes: cs})
+					switch {
+					case aerr != nil && r.err == "ok":
+						fail(i, "[atomic-error] a change set whose application fails ("+manifestErrStr(aerr)+") is in the file, but replay succeeds: "+r.String())
+					case aerr == nil && r.err != "ok":
+						fail(i, "[replay-exact] appended valid change set, replay fails: "+r.err)
+					case aerr == nil:
+						if msg := s.sameState(r.d, dumpOf(&m)); msg != "" {
+							fail(i, "[replay-exact] appended change set: "+msg)
+						}
+					}
+				}
+				return r.String()
 			case w[0] == "file" && len(w) == 1:
 				return hx(s.canonicalFile())
 			case w[0] == "replay" && len(w) == 1:
@@ -810,10 +843,16 @@ func genManifestSession(rng *rand.Rand, st *Stats) []string {
 		}
 		st.Inc("setsize:" + strconv.Itoa(len(cs)))
 		if malformed {
-			// the in-memory manifest may now be partially modified and differ from the file:
-			// end the well-formed part of the session here.
-			ops = append(ops, "file", "replay")
+			// first as a frame appended to a copy of the file (replay must fail as a whole), then
+			// through addChanges: the in-memory manifest may then be partially modified and
+			// differ from the file, so the well-formed part of the session ends here.
+			last := ops[len(ops)-1]
+			ops[len(ops)-1] = "appendraw " + strings.TrimPrefix(last, "add ")
+			ops = append(ops, last, "file", "replay")
 			return ops
+		}
+		if rng.Intn(10) == 0 && len(cs) > 0 {
+			ops = append(ops, "appendraw "+fmt.Sprintf("c:%d:%d:%d:%d", freshID(), level(), keyID(), comp()))
 		}
 		switch rng.Intn(12) {
 		case 0:
